@@ -904,9 +904,10 @@ def enumerate_flavour(flavour, tier, seed):
                                 rs = run_once(env, cs)
                                 stats["sticky_runs"] += 1
                                 note(cs, rs, V0)
-                            if thorough:
-                                # second fault on any later call made after the first one fired
-                                for j in range(i + 1, len(r1["points"])):
+                            if True:
+                                # second fault on any later call made after the first one fired (quick: on the very next call only
+                                # -- typically the "is it a zombie / does it still exist" probe of the error handler)
+                                for j in (range(i + 1, len(r1["points"])) if thorough else range(i + 1, min(i + 2, len(r1["points"])))):
                                     for f2 in faults:
                                         c2 = dict(base, faults=[[i, f], [j, f2]], mode=mode)
                                         r2 = run_once(env, c2)
@@ -1031,7 +1032,7 @@ def run(ctx):
                 "probe answer, outcome kind) tuples over all fault runs, plus one per post-processing case",
         "exhaustive": True,
         "bounds": {"flavours": FLAVOURS, "errnos": ERRNOS, "windows_faults": WIN_FAULTS,
-                   "faults_per_run": 2 if ctx.thorough else 1,
+                   "faults_per_run": 2,
                    "probe_answers": {"bsd/macos": ["zombie", "alive", "gone"], "sunos/aix": ["exists", "gone"], "windows": ["-"]},
                    "pid_kinds": {"bsd/sunos": ["ordinary", "0 listed", "0 unlisted"], "others": ["ordinary"]},
                    "name_cached": [True, False] if ctx.thorough else [True],
